@@ -235,7 +235,7 @@ class CFG:
             self._edge(d, body)
             a = self._new("attempt", st)
             self._edge(a, d)
-            if any(_shallow_may_raise(i.context_expr) for i in st.items):
+            if any(_shallow_may_raise(i.context_expr) and not _is_suppress(i.context_expr) for i in st.items):
                 self._edge(a, env.exc, "exc")
             return a
         if isinstance(st, (ast.Try, ast.TryStar)):
